@@ -8,6 +8,8 @@ export CARGO_NET_OFFLINE=true CARGO_BUILD_JOBS=8
 git -C /repo worktree remove --force $WT 2>/dev/null
 git -C /repo worktree add -q --detach $WT HEAD || exit 2
 declare -A DEMO=(
+ [C20g_typeset_strips_all_leading_signs]="-p yash-builtin --test c20g_typeset_sign_cluster"
+ [C16g_source_registered_as_regular_builtin]="-p yash-builtin --test c16g_assignment_prefix_source_alias"
  [C19g_physical_path_resolves_rest_before_link_target]="-p yash-env -p yash-builtin -E binary(~c19g)"
  [C18g_read_overreads_after_invalid_utf8]="-p yash-builtin --test c18g_read_invalid_utf8"
  [C15g_finished_task_sweep_drops_task_being_polled]="-p yash-executor --test c15g_nested_step_wake"
